@@ -158,6 +158,7 @@ pub struct TrackerStats {
     pub queue: Vec<(Uuid, String)>,
     pub component_tokens: Vec<(Uuid, String)>,
     pub handle_tokens: Vec<Uuid>,
+    pub parent_tokens: Vec<(Uuid, Uuid)>,
     pub sync_materials: bool,
     pub sync_meshes: bool,
     pub sync_audios: bool,
@@ -179,7 +180,16 @@ pub fn tracker_stats(world: &World) -> Option<TrackerStats> {
             .iter()
             .map(|c| (c.id, c.name.clone()))
             .collect(),
-        handle_tokens: t.pushed_handles_from_network.iter().copied().collect(),
+        handle_tokens: t
+            .pushed_handles_from_network
+            .iter()
+            .flat_map(|(id, n)| std::iter::repeat(*id).take(*n))
+            .collect(),
+        parent_tokens: t
+            .pushed_parent_from_network
+            .iter()
+            .map(|(c, p)| (*c, *p))
+            .collect(),
         sync_materials: t.sync_materials,
         sync_meshes: t.sync_meshes,
         sync_audios: t.sync_audios,
@@ -189,6 +199,7 @@ pub fn tracker_stats(world: &World) -> Option<TrackerStats> {
     s.entity_to_uuid.sort();
     s.component_tokens.sort();
     s.handle_tokens.sort();
+    s.parent_tokens.sort();
     Some(s)
 }
 
